@@ -97,6 +97,7 @@ inductive CPc where
   | none                    -- not yet accepted
   | accepted                -- returned by Accept, ServeChannel running on the accept goroutine
   | started                 -- read loop goroutine started, active event not yet past the holder
+  | activating              -- registered in the holder; the active event is with the handlers behind it (which may wait for the peer)
   | loopTop                 -- about to test `<-ctx.Done()` at the top of the read loop
   | reading                 -- blocked in transport.Read inside the first inbound handler
   | closed
@@ -123,6 +124,7 @@ structure CSt where
 inductive CAct where
   | cancel | swap | closeAllEnd
   | accept | serve | add | loopCheck | closeAllVisit
+  | activeDone                  -- the handlers behind the holder have returned from the active event
   | ownClose                    -- the channel closes for a reason of its own (peer EOF, read error, user Close)
   | fireInactive                -- the goroutine that won the `closed` CAS fires inactive: holder.delChannel, then the handlers
   deriving DecidableEq, Repr
@@ -135,8 +137,12 @@ def cstep (s : CSt) : CAct → Option CSt
     if s.swapped && !s.closeAllDone && !(s.loc = .old ∧ s.pc ≠ .closed) then some { s with closeAllDone := true } else none
   | .accept => if s.pc = .none then some { s with pc := .accepted } else none
   | .serve => if s.pc = .accepted then some { s with pc := .started } else none
-  | .add =>                                         -- holder.addChannel (under its mutex), then active is forwarded
-    if s.pc = .started then some { s with pc := .loopTop, loc := .cur } else none
+  | .add =>                                         -- holder.addChannel (under its mutex), then the context test, then active is forwarded
+    if s.pc = .started then
+      (if s.ctxDone then some { s with pc := .closed, loc := .cur, closes := s.closes + 1, firePending := true }   -- set up too late: closed on the spot
+       else some { s with pc := .activating, loc := .cur })
+    else none
+  | .activeDone => if s.pc = .activating then some { s with pc := .loopTop } else none
   | .loopCheck =>                                   -- `select { case <-c.ctx.Done(): return (deferred Close) default: read }`
     if s.pc = .loopTop then
       (if s.ctxDone then some { s with pc := .closed, closes := s.closes + 1, firePending := true }
@@ -144,12 +150,12 @@ def cstep (s : CSt) : CAct → Option CSt
     else none
   | .closeAllVisit =>                               -- CloseAll: ch.Close(ErrServerClosed) for a channel of the old map
     if s.swapped && s.loc = .old && !s.closeAllDone then
-      (if s.pc = .loopTop ∨ s.pc = .reading then some { s with pc := .closed, closes := s.closes + 1, firePending := true }
+      (if s.pc = .activating ∨ s.pc = .loopTop ∨ s.pc = .reading then some { s with pc := .closed, closes := s.closes + 1, firePending := true }
        else if s.pc = .closed then some s            -- lost the `closed` CAS: nothing happens
        else none)
     else none
   | .ownClose =>
-    if s.pc = .loopTop ∨ s.pc = .reading then some { s with pc := .closed, closes := s.closes + 1, firePending := true }
+    if s.pc = .activating ∨ s.pc = .loopTop ∨ s.pc = .reading then some { s with pc := .closed, closes := s.closes + 1, firePending := true }
     else none
   | .fireInactive =>                                -- delChannel removes it from the holder's *current* map only
     if s.firePending then
@@ -159,5 +165,15 @@ def cstep (s : CSt) : CAct → Option CSt
 def crun (s : CSt) : List CAct → Option CSt
   | [] => some s
   | a :: as => (cstep s a).bind (crun · as)
+
+/-- the holder before the repair: it registers the channel and forwards active whatever the state of
+    the context -/
+def cstepPinned (s : CSt) : CAct → Option CSt
+  | .add => if s.pc = .started then some { s with pc := .activating, loc := .cur } else none
+  | a => cstep s a
+
+def crunPinned (s : CSt) : List CAct → Option CSt
+  | [] => some s
+  | a :: as => (cstepPinned s a).bind (crunPinned · as)
 
 end NettyVerif.Boot
